@@ -1122,30 +1122,59 @@ func r46RingsEqualInStep(c *core.Ctx) {
 		return
 	}
 	ringI, ringJ := rings[0], rings[1]
-	// the loop(s) over k: one loop with guarded comparisons, or one loop per direction
-	loops := map[*ssa.BasicBlock]*ssa.Phi{}
-	for _, b := range fn.Blocks {
-		for _, in := range b.Instrs {
-			ph, ok := in.(*ssa.Phi)
-			if !ok || len(ph.Edges) != 2 {
-				continue
+	// the loop(s) over k: one loop with guarded comparisons, or one loop per direction -- in ringsAreEqual itself or
+	// in helpers of the package it hands the rings to
+	countingLoops := func(g *ssa.Function) map[*ssa.BasicBlock]*ssa.Phi {
+		out := map[*ssa.BasicBlock]*ssa.Phi{}
+		for _, b := range g.Blocks {
+			for _, in := range b.Instrs {
+				ph, ok := in.(*ssa.Phi)
+				if !ok || len(ph.Edges) != 2 {
+					continue
+				}
+				for i, e := range ph.Edges {
+					if isConstInt(e, 0) {
+						if inc, ok := ph.Edges[1-i].(*ssa.BinOp); ok && inc.Op == token.ADD && inc.X == ssa.Value(ph) && isConstInt(inc.Y, 1) && core.BlockIf(b) != nil {
+							out[b] = ph
+						}
+					}
+				}
 			}
-			for i, e := range ph.Edges {
-				if isConstInt(e, 0) {
-					if inc, ok := ph.Edges[1-i].(*ssa.BinOp); ok && inc.Op == token.ADD && inc.X == ssa.Value(ph) && isConstInt(inc.Y, 1) && core.BlockIf(b) != nil {
-						loops[b] = ph
+		}
+		return out
+	}
+	loops := countingLoops(fn)
+	hostCalls := map[*ssa.BasicBlock]*ssa.Call{}
+	if len(loops) == 0 {
+		for _, b := range fn.Blocks {
+			for _, in := range b.Instrs {
+				if call, ok := in.(*ssa.Call); ok {
+					if h := call.Call.StaticCallee(); h != nil && len(h.Blocks) > 0 && h.Pkg == fn.Pkg && len(countingLoops(h)) > 0 {
+						hostCalls[b] = call
 					}
 				}
 			}
 		}
 	}
-	if len(loops) == 0 {
+	if len(loops) == 0 && len(hostCalls) == 0 {
 		c.Unknown(R, construct, f.Decl.Pos(), "no counting loop `for k := 0; k < n; k++` found")
 		return
 	}
 	stopAtLoops := map[*ssa.BasicBlock]bool{}
 	for h := range loops {
 		stopAtLoops[h] = true
+	}
+	for b := range hostCalls {
+		stopAtLoops[b] = true
+	}
+	// inside a helper, its parameters stand for the values ringsAreEqual passed
+	sub := map[ssa.Value]ssa.Value{}
+	toCaller := func(v ssa.Value) ssa.Value {
+		v = resolveValue(v)
+		if m, ok := sub[v]; ok {
+			return m
+		}
+		return v
 	}
 	var kPhi *ssa.Phi
 	isLenOfRing := func(v ssa.Value) bool {
@@ -1156,12 +1185,12 @@ func r46RingsEqualInStep(c *core.Ctx) {
 		if _, isLen := isBuiltinCall(call, "len"); !isLen {
 			return false
 		}
-		a := resolveValue(call.Call.Args[0])
+		a := toCaller(call.Call.Args[0])
 		return a == ringI || a == ringJ
 	}
 	elemIndex := func(v ssa.Value, ring ssa.Value) (ssa.Value, bool) {
 		ia := sliceElemLoad(resolveValue(v))
-		if ia == nil || resolveValue(ia.X) != ring {
+		if ia == nil || toCaller(ia.X) != ring {
 			return nil, false
 		}
 		return ia.Index, true
@@ -1172,7 +1201,7 @@ func r46RingsEqualInStep(c *core.Ctx) {
 		if depth > 12 {
 			return nil, false
 		}
-		v = resolveValue(v)
+		v = toCaller(v)
 		if kPhi != nil && v == ssa.Value(kPhi) {
 			return lin{"k": 1}, true
 		}
@@ -1191,7 +1220,7 @@ func r46RingsEqualInStep(c *core.Ctx) {
 				return linear(fr, sel, depth+1)
 			}
 		case *ssa.Call:
-			if strings.HasPrefix(core.StaticCalleeID(x), "slices.Index") && len(x.Call.Args) == 2 && resolveValue(x.Call.Args[0]) == ringJ {
+			if strings.HasPrefix(core.StaticCalleeID(x), "slices.Index") && len(x.Call.Args) == 2 && toCaller(x.Call.Args[0]) == ringJ {
 				if i0, ok := elemIndex(x.Call.Args[1], ringI); ok && isConstInt(i0, 0) {
 					return lin{"idx": 1}, true
 				}
@@ -1287,13 +1316,45 @@ func r46RingsEqualInStep(c *core.Ctx) {
 			bi := &boolInterp{roleOf: func(*boolFrame, ssa.Value) string { return "" }, atom: atom, assign: map[string]bool{"I": iv, "J": jv}, used: map[string]bool{}}
 			fr = &boolFrame{fn: fn, roles: map[ssa.Value]string{}, env: map[ssa.Value]bool{}, phiSel: map[ssa.Value]ssa.Value{}}
 			desc := fmt.Sprintf("first ring a shell=%v, second ring a shell=%v", iv, jv)
-			out, err := bi.run(fr, fn.Blocks[0], stopAtLoops, 0)
+			for k := range sub {
+				delete(sub, k)
+			}
+			var out boolOutcome
+			var err error
+			if _, atEntry := hostCalls[fn.Blocks[0]]; atEntry {
+				out = boolOutcome{kind: "block", blk: fn.Blocks[0]}
+			} else {
+				out, err = bi.run(fr, fn.Blocks[0], stopAtLoops, 0)
+			}
 			if err != nil || out.kind != "block" {
 				c.Unknown(R, construct, f.Decl.Pos(), fmt.Sprintf("the way to the loop is not understood (%s): %v", desc, err))
 				return
 			}
 			header := out.blk
-			kPhi = loops[header]
+			host := fn
+			if call, viaHelper := hostCalls[out.blk]; viaHelper {
+				host = call.Call.StaticCallee()
+				for i, a := range call.Call.Args {
+					if i < len(host.Params) {
+						sub[host.Params[i]] = resolveValue(a)
+					}
+				}
+				hl := countingLoops(host)
+				stopH := map[*ssa.BasicBlock]bool{}
+				for h := range hl {
+					stopH[h] = true
+				}
+				fr = &boolFrame{fn: host, roles: map[ssa.Value]string{}, env: map[ssa.Value]bool{}, phiSel: map[ssa.Value]ssa.Value{}}
+				out, err = bi.run(fr, host.Blocks[0], stopH, 0)
+				if err != nil || out.kind != "block" {
+					c.Unknown(R, construct, f.Decl.Pos(), fmt.Sprintf("the way to the loop inside %s is not understood (%s): %v", host.Name(), desc, err))
+					return
+				}
+				header = out.blk
+				kPhi = hl[header]
+			} else {
+				kPhi = loops[header]
+			}
 			seen = nil
 			fr.prev = header
 			out, err = bi.run(fr, header.Succs[0], map[*ssa.BasicBlock]bool{header: true}, 0)
@@ -1437,7 +1498,7 @@ func r33AttributesPassedThrough(c *core.Ctx) {
 			}
 		}
 	}
-	c.Check(R, construct, f.Decl.Pos(), bad == "" && n >= 5, fmt.Sprintf("%d values appended to the attribute list, each the scanned value itself (or a fresh string copy of scanned bytes)", n), "an attribute value is transformed between the source row and the feature: "+bad)
+	c.Check(R, construct, f.Decl.Pos(), bad == "" && n >= 2, fmt.Sprintf("%d values appended to the attribute list, each the scanned value itself (or a fresh string copy of scanned bytes)", n), "an attribute value is transformed between the source row and the feature: "+bad)
 }
 
 func init() {
@@ -1450,7 +1511,9 @@ func init() {
 // and fractional part converted apart, an offset, another rounding) is not understood and fails.
 func r01CodecIsPlainScaling(c *core.Ctx) {
 	const R = "R01"
-	isScale := func(v ssa.Value) bool {
+	depthScale := 0
+	var isScale func(v ssa.Value) bool
+	isScale = func(v ssa.Value) bool {
 		v = resolveValue(v)
 		switch x := v.(type) {
 		case *ssa.Const:
@@ -1461,6 +1524,23 @@ func r01CodecIsPlainScaling(c *core.Ctx) {
 				return f == 1e10
 			}
 		case *ssa.Call:
+			// a module function without parameters that returns the scale
+			if g := x.Call.StaticCallee(); g != nil && len(g.Blocks) > 0 && len(g.Params) == 0 && core.IsModPath(core.FuncPkgPath(g)) && depthScale < 2 {
+				depthScale++
+				defer func() { depthScale-- }()
+				n := 0
+				for _, b := range g.Blocks {
+					for _, in := range b.Instrs {
+						if ret, ok := in.(*ssa.Return); ok {
+							n++
+							if len(ret.Results) != 1 || !isScale(ret.Results[0]) {
+								return false
+							}
+						}
+					}
+				}
+				return n > 0
+			}
 			if core.StaticCalleeID(x) == "math.Pow" && len(x.Call.Args) == 2 {
 				b, ok1 := x.Call.Args[0].(*ssa.Const)
 				e, ok2 := x.Call.Args[1].(*ssa.Const)
@@ -1857,4 +1937,29 @@ func r46SmallestContainingShell(c *core.Ctx) {
 	default:
 		c.OK(R, construct, mf.Decl.Pos(), "LastMatch(shells by area descending, containing shells) and LastMatch returns elements of its first parameter")
 	}
+}
+
+func init() {
+	reg("R22", func(c *core.Ctx) { noRecoverInModule(c, "R22") })
+	reg("R41", func(c *core.Ctx) { noRecoverInModule(c, "R41") })
+}
+
+// noRecoverInModule: "reported" means the panic or the error reaches the caller.  The module has no recover();
+// one added anywhere between the point index and the command line can turn a reported rejection (outside the grid,
+// address not encodable) into a silent success.
+func noRecoverInModule(c *core.Ctx, R string) {
+	n, bad := 0, ""
+	for _, fn := range allModFuncs(c.P) {
+		n++
+		for _, b := range fn.Blocks {
+			for _, in := range b.Instrs {
+				if call, ok := in.(*ssa.Call); ok {
+					if _, isRec := isBuiltinCall(call, "recover"); isRec {
+						bad += fmt.Sprintf("%s in %s; ", c.P.Pos(call.Pos()), fn.String())
+					}
+				}
+			}
+		}
+	}
+	c.Check(R, "no-recover-in-module", token.NoPos, bad == "" && n > 50, fmt.Sprintf("%d module functions, none calls recover()", n), "a recover() can swallow the panic that reports a rejected vertex or a pixel address that cannot be encoded: "+bad)
 }
